@@ -61,6 +61,12 @@ class _G:
         self.tok += 1
         return f'w{self.tok}'
 
+    def btoken(self):
+        """a value to BIND: now and then a falsy one (a binding is a binding whatever its truth value)"""
+        if self.rng.random() < 0.15:
+            return self.rng.choice([0, '', False, None, 0.0])
+        return self.token()
+
     def new_pid(self):
         self.pid += 1
         return self.pid
@@ -95,7 +101,7 @@ class _G:
         if r < 0.8 or r >= 0.9:
             self.seen_names.append(name)
         if r < 0.3:
-            return [['T', 'S', [['(', [[], {name: {'t': 'spec', 'v': ['Val', self.token()]}}]]]]]
+            return [['T', 'S', [['(', [[], {name: {'t': 'spec', 'v': ['Val', self.btoken()]}}]]]]]
         if r < 0.45:
             return [['T', 'S', [['(', [[], {name: {'t': 'spec', 'v': ['T', 'T', []]}}]]]]]
         if r < 0.55:
@@ -104,7 +110,7 @@ class _G:
         if r < 0.7:
             return [['T', 'A', [['.', name]]]]
         if r < 0.8:
-            return [['Val', self.token()], ['T', 'A', [['.', name]]]]
+            return [['Val', self.btoken()], ['T', 'A', [['.', name]]]]
         if r < 0.86:
             gn = rng.choice(GNAMES)
             self.seen_globals.append(gn)
@@ -114,9 +120,9 @@ class _G:
         if rng.random() < 0.5:
             # the later keyword's value READS the name the earlier keyword binds: it must see the outer
             # binding (or none), never its sibling's
-            return [['T', 'S', [['(', [[], {name: {'t': 'spec', 'v': ['Val', self.token()]},
+            return [['T', 'S', [['(', [[], {name: {'t': 'spec', 'v': ['Val', self.btoken()]},
                                            n2: {'t': 'spec', 'v': ['Coalesce', [['T', 'S', [['.', name]]]], {'default': EMPTY}]}}]]]]]
-        return [['T', 'S', [['(', [[], {name: self.token(), n2: {'t': 'spec', 'v': ['T', 'T', []]}}]]]]]
+        return [['T', 'S', [['(', [[], {name: self.btoken(), n2: {'t': 'spec', 'v': ['T', 'T', []]}}]]]]]
 
     def failing(self):
         return self.rng.choice([['str', 'zz'], ['T', 'S', [['.', 'never_bound']]], ['T', 'T', [['[', 'zz']]]])
